@@ -162,6 +162,12 @@ def oracle_factory(ctx):
         f = inner(case)
         if f is not None:
             feat = known_feature(case[0])
+            if feat == "enum-without-integer-type" and "enum-without-integer-type" in f.bucket:
+                # the recorded defect is there (no integer type). Grant the type the construct uses and look at the rest of what
+                # the schema says about the enum - its table - so that a different enum defect is not hidden behind the known one
+                f2 = inner(case, enum_base="u1")
+                if f2 is not None and f2.bucket == "C19/enum/label-table":
+                    return f2
             if feat is not None:
                 # specs containing a construct with a recorded exporter defect only occur in the `known` campaign (tiny specs);
                 # whatever fails there is attributed to that construct
@@ -171,7 +177,7 @@ def oracle_factory(ctx):
 
 
 def _oracle_factory(ctx):
-    def oracle(case):
+    def oracle(case, enum_base=None):
         spec, params, value = case
         con = G.realise(spec)
         o, doc = export(con)
@@ -197,7 +203,7 @@ def _oracle_factory(ctx):
         except (R.Reject, R.ForeignError):
             ctx.tally("semantic/value-outside-domain")
             return None
-        sch = K.Schema(doc)
+        sch = K.Schema(doc, enum_base=enum_base)
         try:
             fields, kend = sch.parse(data)
         except K.Uninterpretable as e:
@@ -236,6 +242,11 @@ def _oracle_factory(ctx):
                 if not bit and not (isinstance(kv, bytes) and kv == data[start:end]):
                     return Failure("C19/const/contents", "constant member %s is encoded as %s, the schema's contents are %r | schema=%s | %s" % (
                         "->".join(path), data[start:end].hex(), kv, short(doc, 500), where))
+                continue
+            if kind == "enum" and enum_base:
+                if not (str(kv) == str(val) and isinstance(kv, str) == isinstance(val, str)):
+                    return Failure("C19/enum/label-table", "enum member %s parses to %r, the schema's table yields %r (data %s) | schema=%s | %s" % (
+                        "->".join(path), val, kv, data.hex(), short(doc, 500), where))
                 continue
             if kind in ("int", "float", "varint", "bytes", "gbytes", "pstr", "pascal", "cstr", "gstr", "flag", "bits", "bit", "nibble", "octet", "array", "grange", "flagsenum", "pointer",
                         "runtil", "parray", "prefixed", "fixedsized", "padded", "hex", "rebuild", "default", "nullstrip"):
@@ -399,7 +410,9 @@ def exportable(draw, depth=2, tail=True, allow_known=False):
                 members = [[fresh("b"), ["octet"]]]
             return ["bitstruct", members]
         if o == "enum":
-            return ["enum", B1, [["A", 1], ["B", 2]], "kw"]
+            # (aliases: the label reported for a value is the last one declared)
+            return ["enum", B1, draw(st.sampled_from([[["A", 1], ["B", 2]], [["stop", 0], ["run", 1], ["halt", 0]], [["zulu", 5], ["alpha", 5], ["mike", 6]],
+                                                      [["b", 200], ["a", 100], ["c", 200]]])), "kw"]
         if o == "flagsenum":
             return ["flagsenum", B1, [["r", 1], ["w", 2]], "kw"]
         if o == "nullterm":
